@@ -41,7 +41,17 @@ pub fn glyph_keyed_patch(
     b.u32(off);
     b.bytes(&blob);
     let body = b.0;
+    glyph_keyed_wrap(compat, wide_gids, &body, (body.len() as i64 + max_len_delta).max(0) as u32)
+}
 
+/// the uncompressed GlyphPatches body alone
+pub fn glyph_keyed_body(wide_gids: bool, gids: &[u32], tables: &[TagB], data: &[Vec<Vec<u8>>]) -> Vec<u8> {
+    let p = glyph_keyed_patch([0; 4], wide_gids, gids, tables, data, 0);
+    p[29..].to_vec()
+}
+
+/// glyph keyed patch header + an already encoded stream
+pub fn glyph_keyed_wrap(compat: [u32; 4], wide_gids: bool, stream: &[u8], max_uncompressed_length: u32) -> Vec<u8> {
     let mut w = W::default();
     w.bytes(b"ifgk");
     w.u32(0);
@@ -49,8 +59,8 @@ pub fn glyph_keyed_patch(
     for c in compat {
         w.u32(c);
     }
-    w.u32((body.len() as i64 + max_len_delta).max(0) as u32);
-    w.bytes(&body);
+    w.u32(max_uncompressed_length);
+    w.bytes(stream);
     w.0
 }
 
@@ -65,6 +75,20 @@ pub enum TableOp {
 }
 
 pub fn table_keyed_patch(compat: [u32; 4], ops: &[(TagB, TableOp)], max_len_delta: i64) -> Vec<u8> {
+    table_keyed_patch_with(compat, ops, &|stream_len| (stream_len as i64 + max_len_delta).max(0) as u32)
+}
+
+/// `max_len(i, stream length)` supplies max_uncompressed_length of op i
+pub fn table_keyed_patch_lens(compat: [u32; 4], ops: &[(TagB, TableOp)], lens: &[u32]) -> Vec<u8> {
+    let idx = std::cell::Cell::new(0usize);
+    table_keyed_patch_with(compat, ops, &|_| {
+        let i = idx.get();
+        idx.set(i + 1);
+        lens[i]
+    })
+}
+
+fn table_keyed_patch_with(compat: [u32; 4], ops: &[(TagB, TableOp)], max_len: &dyn Fn(usize) -> u32) -> Vec<u8> {
     let mut w = W::default();
     w.bytes(b"iftk");
     w.u32(0);
@@ -86,7 +110,7 @@ pub fn table_keyed_patch(compat: [u32; 4], ops: &[(TagB, TableOp)], max_len_delt
             TableOp::Drop => (2, &[]),
         };
         w.u8(flags);
-        w.u32((stream.len() as i64 + max_len_delta).max(0) as u32);
+        w.u32(max_len(stream.len()));
         w.bytes(stream);
     }
     let end = w.len() as u32;
